@@ -16,7 +16,8 @@ and compares draw-freeness with the hand-written skeletons.
 Predicates (on the implementation's outputs, independent of the model): same int seed + perturbed global state
 => bit-identical results; int-seeded call leaves np.random.get_state() untouched; two generators seeded
 identically => identical results and identical final generator states; fit twice on one estimator => identical
-results and the constructor argument is still the seed; RNG-free functions: repeated calls identical, no draw."""
+results and the constructor argument is still the seed; RNG-free functions: repeated calls identical, no draw; two identically
+seeded generators threaded through the same multi-step call sequence (sequential and interleaved) agree step by step."""
 import random, re, threading
 import numpy as np
 from harness import common as C
@@ -320,6 +321,11 @@ def configs(tier, rng):
     fs3 = [data((s, 2), 11 + i) for i, s in enumerate((4, 3, 5))]
     out.append(Cfg("sample_khatri_rao", "E_sample_khatri_rao", opts_lit((4, 3, 5), 2),
                    lambda rs: D.sample_khatri_rao(fs3, 6, random_state=rs), entry_point="tensorly.decomposition.sample_khatri_rao"))
+    # with indices_list supplied the generator is never looked at (no check_random_state, no draw): o_mask stands for "supplied"
+    idx3 = [ORIG_RS(50 + i).randint(0, s, size=6) for i, s in enumerate((4, 3, 5))]
+    out.append(Cfg("sample_khatri_rao[indices_list]", "E_sample_khatri_rao", opts_lit((4, 3, 5), 2, mask=True),
+                   lambda rs: D.sample_khatri_rao(fs3, 6, indices_list=idx3, return_sampled_rows=True, random_state=rs), kinds=BAD, rng_free=True,
+                   entry_point="tensorly.decomposition.sample_khatri_rao"))
 
     # ---- Tucker family
     for sh in shapes3:
@@ -387,6 +393,32 @@ def configs(tier, rng):
                        lambda rs, slices=slices: D.parafac2(slices, 2, n_iter_max=9, init="svd", svd="randomized_svd", random_state=rs, linesearch=True, n_iter_parafac=2, tol=1e-13),
                        entry_point="tensorly.decomposition.parafac2"))
 
+    # ---- internal seed-accepting helpers (every definition of tensorly with a random_state parameter is traced)
+    for init, svd, rank in [("random", "truncated_svd", 2), ("svd", "truncated_svd", 2), ("svd", "randomized_svd", 2), ("svd", "truncated_svd", 6),
+                            ("user", "truncated_svd", 2)] + ([("svd", "randomized_svd", 6), ("svd", "symeig_svd", 2)] if thorough else []):
+        ini = (lambda rank=rank: user_cp((4, 3, 5), rank)) if init == "user" else (lambda init=init: init)
+        out.append(Cfg(f"initialize_constrained_parafac[{init},{svd},rank={rank}]", "E_initialize_constrained", opts_lit((4, 3, 5), rank, init, svd),
+                       lambda rs, ini=ini, svd=svd, rank=rank: _constrained_cp.initialize_constrained_parafac(X3, rank, init=ini(), svd=svd, random_state=rs, non_negative=True),
+                       kinds=BAD, entry_point="tensorly.decomposition._constrained_cp.initialize_constrained_parafac"))
+    sl3 = [low_rank((5 + (i % 2), 4), 2, 20 + i) for i in range(3)]
+    for init, svd in [("random", "truncated_svd"), ("svd", "truncated_svd"), ("svd", "randomized_svd")] + ([("svd", "symeig_svd"), ("random", "randomized_svd")] if thorough else []):
+        out.append(Cfg(f"initialize_decomposition[{init},{svd}]", "E_parafac2_init", opts_lit((), 2, init, svd, aux=3),
+                       lambda rs, init=init, svd=svd: _parafac2.initialize_decomposition(sl3, 2, init=init, svd=svd, random_state=rs),
+                       kinds=BAD, entry_point="tensorly.decomposition._parafac2.initialize_decomposition", rng_free=(init == "svd" and svd != "randomized_svd")))
+    p2f = [np.ones((3, 2)), np.eye(2), data((4, 2), 61, nonneg=False)]
+    for svd in ("truncated_svd", "randomized_svd"):
+        out.append(Cfg(f"_compute_projections[{svd}]", "E_compute_projections", opts_lit((), 2, "svd", svd, aux=3),
+                       lambda rs, svd=svd: _parafac2._compute_projections(sl3, p2f, svd, random_state=rs),
+                       kinds=BAD, entry_point="tensorly.decomposition._parafac2._compute_projections", rng_free=(svd != "randomized_svd")))
+
+        def line_step(rs, svd=svd):
+            ls = _parafac2._BroThesisLineSearch(1.0, svd, random_state=rs)
+            return ls.line_step(3, sl3, [f * 0.9 for f in p2f], np.ones(2), p2f, _parafac2._compute_projections(sl3, p2f, "truncated_svd"), 1e9)
+        out.append(Cfg(f"_BroThesisLineSearch.line_step[{svd}]", "(E_estimator E_compute_projections)", opts_lit((), 2, "svd", svd, aux=3), line_step,
+                       kinds=BAD, entry_point="tensorly.decomposition._parafac2._BroThesisLineSearch.line_step", rng_free=(svd != "randomized_svd")))
+    out.append(Cfg("check_random_state", "E_check_random_state", opts_lit(), lambda rs: tl.check_random_state(rs) is None, kinds=BAD,
+                   entry_point="tensorly.check_random_state"))
+
     # ---- tensor ring ALS, TT-cross
     for sh in shapes3[:2] + ([(3, 2, 3, 2)] if thorough else []):
         X = low_rank(sh, 2, 3)
@@ -453,6 +485,9 @@ def configs(tier, rng):
         ("ConstrainedCP", "E_constrained_parafac", opts_lit((4, 3, 5), 2, "random", iters=2), lambda rs: D.ConstrainedCP(2, n_iter_max=2, init="random", random_state=rs, non_negative=True), Xc),
         ("RandomizedCP", "E_randomised_parafac", opts_lit((4, 3, 5), 2, "random", iters=2), lambda rs: D.RandomizedCP(2, 12, n_iter_max=2, init="random", random_state=rs), Xc),
         ("Tucker", "E_tucker", opts_lit((4, 3, 5), 2, "random", iters=2), lambda rs: D.Tucker([2, 2, 2], n_iter_max=2, init="random", random_state=rs), Xc),
+        ("Tucker_NN", "E_nn_tucker", opts_lit((4, 3, 5), 2, "random", iters=2), lambda rs: _tucker.Tucker_NN([2, 2, 2], n_iter_max=2, init="random", random_state=rs), Xc),
+        ("Tucker_NN_HALS", "E_nn_tucker_hals", opts_lit((4, 3, 5), 2, "random", iters=2), lambda rs: _tucker.Tucker_NN_HALS([2, 2, 2], n_iter_max=2, init="random", random_state=rs), Xc),
+        ("Tucker_NN_HALS[svd,randomized]", "E_nn_tucker_hals", opts_lit((4, 3, 5), 2, "svd", "randomized_svd", iters=2), lambda rs: _tucker.Tucker_NN_HALS([2, 2, 2], n_iter_max=2, init="svd", svd="randomized_svd", random_state=rs), Xc),
         ("Tucker[svd,randomized]", "E_tucker", opts_lit((4, 3, 5), 2, "svd", "randomized_svd", iters=2), lambda rs: D.Tucker([2, 2, 2], n_iter_max=2, init="svd", svd="randomized_svd", random_state=rs), Xc),
         ("Parafac2", "E_parafac2", opts_lit((), 2, "random", "truncated_svd", False, 0, 2, 3), lambda rs: D.Parafac2(2, n_iter_max=2, init="random", random_state=rs, n_iter_parafac=2, return_errors=True), slices3),
         ("TensorRingALS", "E_tr_als", opts_lit((4, 3, 5), 2, iters=2), lambda rs: D.TensorRingALS([2, 2, 2, 2], n_iter_max=2, random_state=rs), Xc),
@@ -1224,6 +1259,9 @@ STATIC_EP = {
     "tensor_ring_als_sampled": "E_tr_als_sampled", "tensor_train_cross": "E_tt_cross", "CPRegressor": "E_cp_regressor", "TuckerRegressor": "E_tucker_regressor",
     "CP_PLSR": "E_cp_plsr", "CP": "(E_estimator E_parafac)", "CP_NN": "(E_estimator E_nn_parafac)", "CP_NN_HALS": "(E_estimator E_nn_parafac_hals)",
     "ConstrainedCP": "(E_estimator E_constrained_parafac)", "RandomizedCP": "(E_estimator E_randomised_parafac)", "Tucker": "(E_estimator E_tucker)",
+    "Tucker_NN": "(E_estimator E_nn_tucker)", "Tucker_NN_HALS": "(E_estimator E_nn_tucker_hals)",
+    "initialize_constrained_parafac": "E_initialize_constrained", "initialize_decomposition": "E_parafac2_init",
+    "_compute_projections": "E_compute_projections", "_BroThesisLineSearch": "(E_estimator E_compute_projections)",
     "Parafac2": "(E_estimator E_parafac2)", "TensorRingALS": "(E_estimator E_tr_als)", "TensorRingALSSampled": "(E_estimator E_tr_als_sampled)",
 }
 # CP_PLSR.fit calls initialize_cp(Z, 1) without random_state; the extraction cannot see that the rank-1 padding branch is
@@ -1249,6 +1287,35 @@ RNGFREE = [("tensor_train", {}), ("tensor_train_matrix", {}), ("tensor_ring", {}
            ("tt_to_tensor", {}), ("tr_to_tensor", {}), ("parafac2_to_tensor", {}), ("unfold", {}), ("fold", {}), ("partial_unfold", {}), ("tensor_to_vec", {})]
 
 
+# ... and, found automatically on every run, EVERY top-level function without a random_state parameter of the modules below
+# (tensor algebra, tensor formats, metrics, proximal operators, SVD-based TT / TR, robust PCA, utilities): with the constant
+# defaults of its signature its transcribed source, all resolvable callees inlined, must not contain a draw.  Fail closed: a
+# new function of these modules that draws is a disagreement unless it is listed here with the reason.
+RNGFREE_MODULES = ["tensorly/tenalg/core_tenalg/*.py", "tensorly/tenalg/proximal.py", "tensorly/tenalg/tenalg_utils.py", "tensorly/base.py",
+                   "tensorly/cp_tensor.py", "tensorly/tucker_tensor.py", "tensorly/tt_tensor.py", "tensorly/tr_tensor.py", "tensorly/tt_matrix.py",
+                   "tensorly/parafac2_tensor.py", "tensorly/metrics/*.py", "tensorly/utils/*.py", "tensorly/preprocessing.py", "tensorly/solvers/*.py",
+                   "tensorly/decomposition/robust_decomposition.py", "tensorly/decomposition/_tt.py", "tensorly/decomposition/_tr_svd.py",
+                   "tensorly/decomposition/_cmtf_als.py", "tensorly/decomposition/_symmetric_cp.py", "tensorly/decomposition/_cp_power.py"]
+RNGFREE_EXEMPT = {
+    "coupled_matrix_tensor_3d_factorization": "no random_state parameter; its initialize_cp pads with draws from the global generator when the rank exceeds a mode size",
+    "power_iteration": "no random_state parameter, starts from np.random draws (outside the property's statement, traced as E_power_iteration)",
+    "parafac_power_iteration": "calls power_iteration", "symmetric_power_iteration": "no random_state parameter, starts from np.random draws",
+    "symmetric_parafac_power_iteration": "calls symmetric_power_iteration",
+}
+
+
+def rngfree_auto(ex, have):
+    import fnmatch
+    out = []
+    for i, (rel, node, cls) in sorted(ex.defs.items()):
+        if cls is not None or not isinstance(node, ast.FunctionDef) or i in ex.seedparam or node.name in RNGFREE_EXEMPT:
+            continue
+        if not any(fnmatch.fnmatch(rel, p) for p in RNGFREE_MODULES) or (node.name, i) in have:
+            continue
+        out.append(i)
+    return out
+
+
 def rngfree_cases(ex):
     """pskel of every function of RNGFREE found in the source (core tenalg backend, not contrib / other backends), every
     resolvable callee inlined, the signature's constant defaults and the listed constants propagated"""
@@ -1271,6 +1338,21 @@ def rngfree_cases(ex):
             env.update(consts)
             cases.append(f"({len(cases)}%nat, {coq(ex.body_of(i, env))})")
             names.append(f"{i} {dict((k, repr(v)) for k, v in consts.items())}")
+    listed = {n.split(" ")[0] for n in names}
+    for i in rngfree_auto(ex, set()):
+        if i in listed:
+            continue
+        a = ex.defs[i][1].args
+        env = {}
+        allpos = [x.arg for x in a.posonlyargs + a.args]
+        for nm, d in zip(allpos[len(allpos) - len(a.defaults):], a.defaults):
+            if isinstance(d, ast.Constant):
+                env[nm] = d.value
+        for x, d in zip(a.kwonlyargs, a.kw_defaults):
+            if isinstance(d, ast.Constant):
+                env[x.arg] = d.value
+        cases.append(f"({len(cases)}%nat, {coq(ex.body_of(i, env))})")
+        names.append(f"{i} (found automatically, signature defaults)")
     return cases, names, missing
 
 
@@ -1286,7 +1368,7 @@ def static_cases(cfgs):
         bare = i.split("::")[1].split(".")[-1]
         ep = STATIC_EP.get(bare)
         ms = "[" + "; ".join(f"skeleton {ep} {o}" for o in sorted(models.get(ep, ()))) + "]"
-        cases.append(f"({k}%nat, {C.boolc(bare not in STATIC_NOT_REQUIRED)}, {coq(sk)}, {ms})")
+        cases.append(f"({k}%nat, {C.boolc(bare not in STATIC_NOT_REQUIRED)}, {coq(sk)}, {ms}, {'(Some %s)' % ep if ep else 'None'})")
     return ex, ids, cases
 
 
@@ -1478,6 +1560,52 @@ def interleaved_check(cfgs, seeds, rng, chk):
         stop.set(); th.join(5)
 
 
+def sequence_check(names, seed, rng, chk, by_name):
+    """the generator-instance clause over MULTI-STEP sequences (Props C16_identical_instances_history): two RandomState(seed)
+    objects A and B are each threaded through the same sequence of library calls (different entry points), once one after the
+    other and once interleaved, with the global generator perturbed in between: step by step the results are bit-identical,
+    the two objects end in the same state, and no call moves the global generator.  Returns the number of failures."""
+    seq = [by_name[n] for n in names]
+    bad = 0
+    for mode in ("sequential", "interleaved"):
+        A, B = LogRS(int(seed)), LogRS(int(seed))
+        ra, rb, moved = [], [], False
+        order = [(c, A, ra) for c in seq] + [(c, B, rb) for c in seq] if mode == "sequential" else \
+            [x for c in seq for x in ((c, A, ra), (c, B, rb))]
+        for c, obj, acc in order:
+            perturb(rng)
+            s0 = gstate()
+            acc.append(C.call_impl(c.fn, obj, timeout=60))
+            moved = moved or (s0 != gstate())
+            chk.cov["evaluations"] += 1
+        inp = {"config": names[0], "sequence": list(names), "random_state": "inst-sequence:" + mode, "seed": int(seed)}
+        if any(x[0] != "ok" for x in ra + rb):
+            chk.hist("instance sequences", "skipped (a call raised)")
+            continue
+        chk.hist("instance sequences", mode)
+        for k, (x, y) in enumerate(zip(ra, rb)):
+            if not same(x, y):
+                chk.finding(seq[k].entry_point, inp, f"two identically seeded generators threaded through the same call sequence give different results at step {k} ({names[k]})",
+                            "C16_identical_instances_history"); bad += 1
+                break
+        else:
+            if rs_state(A) != rs_state(B):
+                chk.finding(seq[-1].entry_point, inp, "two identically seeded generators threaded through the same call sequence end in different states",
+                            "C16_identical_instances_history"); bad += 1
+        if moved:
+            chk.finding(seq[0].entry_point, inp, "np.random.get_state() changed by a call that was given a RandomState instance", "C16_identical_instances_history"); bad += 1
+    return bad
+
+
+def instance_sequences(cfgs, seeds, rng, chk, n):
+    pick = [c for c in cfgs if c.seedable and "inst" in c.kinds and not c.rng_free]
+    by_name = {c.name: c for c in pick}
+    for k in range(n):
+        names = [pick[rng.randrange(len(pick))].name for _ in range(3)]
+        sequence_check(names, seeds[k % len(seeds)], rng, chk, by_name)
+        chk.count(key=("instance-sequence", tuple(names)), nontrivial=True)
+
+
 def run_shards_retry(cases, chk, shard=150, retries=3):
     """common.run_case_shards + re-evaluation of shards that were KILLED (out-of-memory killer / timeout on the
     shared machine: return code -9 / 137 / 124, no Coq error message).  A shard that Coq rejects or that reports
@@ -1550,6 +1678,7 @@ def run(chk):
             nskip += bool(check_config(cfg, ss, rng, chk, cases, meta, n_perturb=(1 if tier == "quick" else 2)))
             chk.hist("entry point", cfg.entry_point)
         interleaved_check(cfgs, seeds, rng, chk)
+        instance_sequences(cfgs, seeds, rng, chk, 6 if tier == "quick" else 40)
         # check_random_state itself
         import tensorly as tl
         G = _Installed.G
@@ -1672,6 +1801,12 @@ def replay(payload):
         if str(inp.get("config", "")).startswith("callback") or inp.get("interleaving"):
             cfgs = configs("thorough", rng)
             interleaved_check(cfgs, [int(inp.get("seed") or 0), 1], rng, chk)
+        elif inp.get("sequence"):
+            allc = {c.name: c for t in ("thorough", "quick") for c in configs(t, random.Random(0))}
+            if any(n not in allc for n in inp["sequence"]):
+                print("replay: configuration not found:", inp["sequence"]); return 1
+            for _ in range(3):
+                sequence_check(list(inp["sequence"]), int(inp.get("seed") or 0), rng, chk, allc)
         elif inp.get("config") == "check_random_state":
             import tensorly as tl
             ok = tl.check_random_state(None) is _Installed.G and C.call_impl(tl.check_random_state, "x")[0] == "reject" \
